@@ -38,6 +38,7 @@ def handle (line : String) : String :=
   | "inlinex" :: rest => Drv.inlineXLine rest
   | "rx" :: rest => Drv.rxLine rest
   | "inlinel" :: rest => Drv.inlineLLine rest
+  | "inlinei" :: rest => Drv.inlineILine rest
   | "delims" :: rest => Drv.delimsLine rest
   | "textjoin" :: rest => Drv.textJoinLine rest
   | "smart" :: rest => Drv.smartLine rest
